@@ -41,7 +41,7 @@ TB_CONV = TB_COMMON + [
     'N1 (reference patterns on Copy values) and N3 (`for x in user_iterator` desugared to `loop { match it.next() .. }`, the Rust reference definition of `for`) are applied to fancy_layout_interpreting.rs before verification',
     'E5: the lazy_static tables US_KEYBOARD_LAYOUT / CHAR_ACCESS_MAP are replaced by external_body accessors (assumed: `get` returns None or a reference into the table)',
     'E2: the Display impls of fancy_keys.rs are compiled but not verified; format! results are opaque (fmt_req_all axioms for Row, Modifier, KeyCode, Vec<KeyCode>)',
-    'assumed contracts on std: <[T]>::sort leaves an ascending permutation of the elements (ord_leq, a total order consistent with == for KeyCode: derived Ord on a field-less enum), Vec::extend / Chars::count have no contract beyond memory safety, HashMap::get_mut, String / FromSet obey the hash key model, and FromSet keys are equal exactly when their key vectors have equal contents (derived Eq/Hash; axiom_fromset_ext)',
+    'assumed contracts on std: <[T]>::sort leaves an ascending permutation of the elements (ord_leq, a total order consistent with == for KeyCode: derived Ord on a field-less enum), Vec::extend has the contract named below, Chars::count returns the number of characters left, HashMap::get_mut, String / FromSet obey the hash key model, and FromSet keys are equal exactly when their key vectors have equal contents (derived Eq/Hash; axiom_fromset_ext)',
     "N5: `s.iter().map(closure).collect()` (one site: FromSet::new) is replaced by the push loop it stands for before verification; rustc's derive(Clone) on FromSet is the field-wise expansion written out in the overlay (E2'); both are exercised on every run by the bounded program comparison programs_bounded",
 ]
 AS_CONV = [
@@ -75,7 +75,8 @@ PROPS = {
                     'assumed contract on <Vec<T> as Extend<&T>>::extend (appends the items the argument yields; a &Vec yields its elements in order), used for the trigger-side and output-side key lists'],
                 assumptions=AS_CONV + [
                     'the repeat-only pass IS under contract (convert ensures convert_full: first-pass expansion of every source mapping with repeat mode and absorbing list, then for every repeat-only entry and every combination, in order, the first-pass mappings with the same trigger set - same final key, same modifiers in any order - get its repeat mode, or an identity mapping is appended if there is none); "there is none" refers to the mappings of the first pass: an identity mapping added by an earlier repeat-only entry is not found by a later one (what the code does; the statement does not say)',
-                    'NOT under contract (named, unproved): WHEN the converter accepts (the contracts read `r is Ok ==> ...`; the bounded extra programs_bounded checks acceptance), and the equivalence of spellings (parser, out of reach)',
+                    'acceptance IS under contract: convert ensures `r is Err ==> convert_rejects(f)`: a layout is refused only if a source mapping cannot be expanded (undefined alias; for some combination an output-side alias that does not occur on the trigger side, a repeat with more letters than the output, an unknown or too short row, a character that cannot be typed), a repeat-only entry cannot be applied, or the converted layout contains a mapping the mapper cannot run (check_mapping_is_usable is exact); assumed for it: Chars::count returns the number of characters left',
+                    'NOT under contract (named, unproved): the equivalence of spellings (bare string vs one-element array, case of row / repeat names: these live in the parser, which is verified for panic-freedom only); the bounded extra programs_bounded compares spellings and acceptance on generated programs',
                     'an alias name that occurs twice among the trigger modifiers is resolved on the output side to its LAST trigger-side occurrence (what the code does; the statement does not say)'],
                 witness='loader', extras=['tables_enum', 'programs_bounded']),
     'C17': dict(units=['udev'], level='proof', extras=['udev_enum'], witness=None,
